@@ -645,8 +645,13 @@ impl TxRecoveryState {
                     );
                 },
                 TxWalEntry::PrepareVote { tx_id, shard, vote } => {
-                    if let Some((_, votes, _)) = in_progress.get_mut(tx_id) {
-                        votes.push((*shard, *vote));
+                    // Votes are logged before the coordinator validates them. It only
+                    // accepts the first vote of a shard, and only while the transaction is
+                    // still collecting votes; rejected votes must not be recovered.
+                    if let Some((_, votes, phase)) = in_progress.get_mut(tx_id) {
+                        if *phase == TxPhase::Preparing && !votes.iter().any(|(s, _)| s == shard) {
+                            votes.push((*shard, *vote));
+                        }
                     }
                 },
                 TxWalEntry::PhaseChange { tx_id, to, .. } => {
